@@ -106,6 +106,11 @@ impl Prop for C07 {
             cfg.max_cells = 14;
             cfg.max_elems = 40;
         }
+        // every third library uses a technology in which distinct layers share a GDSII layer number (met1 68/20 and via 68/44 style)
+        if cx.n % 3 == 2 {
+            cfg.shared_layer_numbers = true;
+            cx.count("libraries_with_shared_layer_numbers");
+        }
         let g = rand_raw_lib(&mut cx.rng, &cfg);
         cx.eval();
         let want = match summarize(&g.lib, &g.defs) {
